@@ -419,6 +419,86 @@ def interp_function(st, xp, fp):
     return f
 
 
+class Interp1d(object):
+    """scipy.interpolate.interp1d(x, y) (linear, along the last axis of y, bounds_error=True)."""
+
+    def __init__(self, x, y, bounds_error=True, fill_value=None):
+        self.x, self.y = x, y
+        self.bounds_error = bounds_error
+        self.fill_value = fill_value
+
+
+def row_interpolant(st, xp, fp2):
+    """Named interpolants of the rows of a 2-d table fp2[i, k] over abscissae xp[k]:
+    G(i, v), with the same dependency contract as interp_function for every row."""
+    ps, pf, _ = npm.info(st, xp)
+    fs, ff, _ = npm.info(st, fp2)
+    n = ps[0]
+    K0, I0 = Sc(z3.Int('K!')), Sc(z3.Int('I!'))
+    key = '|'.join(str(getattr(v, 't', v)) for v in (pf((K0,)), ff((I0, K0)))) + '|' + str(getattr(n, 't', n))
+    if key not in _PL:
+        idx = len(_PL)
+        _PL[key] = (z3.Function('PLrow%d' % idx, z3.IntSort(), z3.RealSort(), z3.RealSort()), z3.Function('PLrowseg%d' % idx, z3.RealSort(), z3.IntSort()))
+    G, SEG = _PL[key]
+    g = lambda i, v: Sc(G(to_z3(i, 'int'), to_z3(v, 'real')))
+    seg = lambda v: Sc(SEG(to_z3(v, 'real')))
+    tag = ('plrow', key)
+    if tag not in st.tags:
+        st.tags.add(tag)
+        nm1 = arith('-', n, 1)
+
+        def ax(i, v, k):
+            x0, x1 = pf((k,)), pf((arith('+', k, 1),))
+            y0, y1 = ff((i, k)), ff((i, arith('+', k, 1)))
+            lin = arith('+', y0, arith('*', arith('-', v, x0), arith('/', arith('-', y1, y0), arith('-', x1, x0))))
+            return implies(band(compare('<=', x0, v), compare('<=', v, x1)), compare('==', g(i, v), lin))
+        st.assume(Forall([fs[0], 'real', nm1], ax, name='interp1d.linear'))
+
+        def ex(v):
+            k = seg(v)
+            inside = band(compare('>=', v, pf((0,))), compare('<=', v, pf((nm1,))))
+            return implies(band(inside, compare('>=', n, 2)), band(band(compare('<=', 0, k), compare('<', k, nm1)),
+                                                                  band(compare('<=', pf((k,)), v), compare('<=', v, pf((arith('+', k, 1),))))))
+        fb = Forall(['real'], ex, name='interp1d.bracket')
+        fb.extra_pos = [{(G.name(), 1)}]
+        st.assume(fb)
+    return g
+
+
+@model('scipy.interpolate.interp1d')
+def sp_interp1d(interp, st, fr, args, kw):
+    USED.add('scipy.interpolate.interp1d')
+    x, y = args[0], args[1]
+    if isinstance(x, Quantity):
+        x = x.value         # interp1d drops units
+    if isinstance(y, Quantity):
+        y = y.value
+    xs, xf, _ = npm.info(st, x)
+    st.oblige('safe.interp1d_x_increasing', Forall([xs[0], xs[0]], lambda k, l: implies(compare('<', k, l), compare('<', xf((k,)), xf((l,)))), name='increasing'), kind='safe')
+    st.oblige('safe.interp1d_two_points', compare('>=', xs[0], 2), kind='safe')
+    return Interp1d(x, y, kw.get('bounds_error', True), kw.get('fill_value'))
+
+
+def call_interp1d(interp, st, fr, f, args, kw):
+    xn = args[0]
+    if isinstance(xn, Quantity):
+        xn = xn.value
+    xs, xf, _ = npm.info(st, f.x)
+    ys, yf, _ = npm.info(st, f.y)
+    n = xs[0]
+    nm1 = arith('-', n, 1)
+    if len(ys) != 2:
+        raise Unsupported("interp1d over a table of rank %d" % len(ys))
+    G = row_interpolant(st, f.x, f.y)
+    qs, qf, _ = npm.info(st, xn)
+    if len(qs) != 1:
+        raise Unsupported("interp1d called with a non 1-d argument")
+    if f.bounds_error:
+        # outside the table scipy raises ValueError: in-range is an obligation at the call
+        st.oblige('call.interp1d/pre.inside_table', Forall([qs[0]], lambda q: band(compare('>=', qf((q,)), xf((0,))), compare('<=', qf((q,)), xf((nm1,)))), name='inside'), kind='pre')
+    return PureArr((ys[0], qs[0]), lambda idx: G(idx[0], qf((idx[1],))), 'real')
+
+
 @model('numpy.interp')
 def np_interp(interp, st, fr, args, kw):
     """np.interp(x, xp, fp, left, right) for strictly increasing xp (an obligation): F(x) with F
@@ -707,6 +787,47 @@ def os_remove(interp, st, fr, args, kw):
 @model('sys.exit')
 def sys_exit(interp, st, fr, args, kw):
     raise Raised('SystemExit')
+
+
+@model('copy.deepcopy')
+def copy_deepcopy(interp, st, fr, args, kw):
+    memo = {}
+
+    def clone(v):
+        if isinstance(v, Quantity):
+            return Quantity(clone(v.value), v.unit)
+        if isinstance(v, ArrRef):
+            if ('a', v.addr) in memo:
+                return ArrRef(memo[('a', v.addr)], v.view)
+            shape, fn, kind = npm.info(st, ArrRef(v.addr))
+            new = st.alloc_arr(shape, fn, kind)
+            memo[('a', v.addr)] = new.addr
+            return ArrRef(new.addr, v.view)
+        if isinstance(v, PureArr):
+            return v
+        if isinstance(v, ObjRef):
+            if ('o', v.addr) in memo:
+                return ObjRef(memo[('o', v.addr)])
+            cell = st.heap[v.addr]
+            new = st.alloc_obj(cell.cls, {})
+            memo[('o', v.addr)] = new.addr
+            for k, x in cell.attrs.items():
+                st.set_attr(new, k, clone(x))
+            return new
+        if isinstance(v, ListRef):
+            return st.alloc_list([clone(x) for x in st.heap[v.addr].items])
+        if isinstance(v, tuple):
+            return tuple(clone(x) for x in v)
+        return v
+    return clone(args[0])
+
+
+class SpecCallable(object):
+    """A callable given to the function under verification by the contract (e.g. the
+    extinction law handed to SED.scale_to_av)."""
+
+    def __init__(self, fn):
+        self.fn = fn
 
 
 # --- astropy.units ------------------------------------------------------------
